@@ -121,6 +121,18 @@ def judge_decode(ctx, sp, x, y, tr):
                       f"generated instance is called {inst.name!r}; the "
                       f"template is {tname!r}, the space announces "
                       f"{sp.inst_name!r}", case)
+    tm = STATE.get("template")
+    if tm is not None and (sp.bin_width != tm.bin_width
+                           or sp.bin_height != tm.bin_height
+                           or sp.n_items != tm.n_items
+                           or sp.min_bins != min(tm.lower_bound_bins,
+                                                 tm.n_items)):
+        # what the space announces must be the template's own data
+        ctx.violation("space-differs-from-template",
+                      f"space: {sp.bin_width}x{sp.bin_height}, "
+                      f"{sp.n_items} items, {sp.min_bins} bins; template: "
+                      f"{tm.bin_width}x{tm.bin_height}, {tm.n_items} items, "
+                      f"lower bound {tm.lower_bound_bins}", case)
     if inst.bin_width != sp.bin_width or inst.bin_height != sp.bin_height:
         ctx.violation("generated-bin-size", "bin size differs", case)
     if inst.n_items != sp.n_items:
@@ -320,6 +332,7 @@ def one(ctx, tcase, k, x=None, tag=None):
     rng = ctx.rng
     templ = get_template(rng, tcase)
     STATE["template_name"] = str(templ.name)
+    STATE["template"] = templ
     try:
         sp = InstanceSpace(templ)
     except ValueError:
